@@ -50,6 +50,42 @@ def sizeL : List (CNode K) → Nat
   | [] => 0
   | c :: rest => size c + sizeL rest
 end
+
+mutual
+/-- number of levels (a node without children has height 1) -/
+def height : CNode K → Nat
+  | mk _ _ _ _ cs => 1 + heightL cs
+def heightL : List (CNode K) → Nat
+  | [] => 0
+  | c :: rest => max (height c) (heightL rest)
+end
+
+mutual
+/-- the largest `scale` of a node with children (0 when there is none): the scales at which `descend` can file a
+    reference node into `cover_sets`, hence a bound of `max_scale` throughout the query -/
+def innerScale : CNode K → Nat
+  | mk _ _ _ s cs => max (if cs.isEmpty then 0 else s) (innerScaleL cs)
+def innerScaleL : List (CNode K) → Nat
+  | [] => 0
+  | c :: rest => max (innerScale c) (innerScaleL rest)
+end
+
+mutual
+/-- every node without children carries the scale `ls` (the member `leaf_scale`; what `set_leaf_scale` establishes).
+    The query splits a query node when `scale <= current_scale && scale != leaf_scale` and then reads
+    `children[0]`: on a childless node of another scale that is undefined behaviour (`none` in `internalBatch`). -/
+def leavesAt (ls : Nat) : CNode K → Bool
+  | mk _ _ _ s cs => (!cs.isEmpty || s == ls) && leavesAtL ls cs
+def leavesAtL (ls : Nat) : List (CNode K) → Bool
+  | [] => true
+  | c :: rest => leavesAt ls c && leavesAtL ls rest
+end
+
+/-- recursion depth of the batch query on `top` (as query and reference tree): one frame per scale `0 .. innerScale`
+    descended, one per level of the query tree split or walked by `brute_nearest` (attained, e.g., on `exTree` of
+    `Props/C02.lean`)
+    (`Proofs/CoverFuel.lean`: this fuel suffices and no larger fuel changes the answer) -/
+def queryFuel (top : CNode K) : Nat := top.height + top.innerScale + 1
 end CNode
 
 variable {K : Type}
@@ -169,7 +205,7 @@ def copyCover (δ : Nat → Nat → K) (K0 : Nat) (C : CNode K) (cover : Cover K
 
 /-! ### `brute_nearest`, `internal_batch_nearest_neighbor` -/
 
-/-- `none` = the fuel ran out -/
+/-- `none` = the fuel ran out (it does not when `fuel ≥ Q.height`: `Proofs/CoverFuel.lean`) -/
 def bruteNearest (δ : Nat → Nat → K) (K0 : Nat) : Nat → CNode K → List (DN K) → List K → Option (List (List Nat))
   | 0, _, _, _ => none
   | fuel + 1, Q, zero, ub =>
@@ -189,6 +225,9 @@ def bruteNearest (δ : Nat → Nat → K) (K0 : Nat) : Nat → CNode K → List 
             | none => none
             | some r => some (rs ++ r)) (some r0)
 
+/-- `none` = the fuel ran out, or a query node without children is to be split (`query->children[0]` of a leaf: undefined
+    behaviour in the C++).  Neither happens on a tree whose childless nodes carry `leafScale` when
+    `fuel ≥ top.queryFuel` (`cover_query_fuel_suffices`). -/
 def internalBatch (δ : Nat → Nat → K) (hsort : List (DN K) → List (DN K)) (K0 leafScale : Nat) :
     Nat → CNode K → Cover K → List (DN K) → Nat → Nat → List K → Option (List (List Nat))
   | 0, _, _, _, _, _, _ => none
@@ -218,16 +257,22 @@ def internalBatch (δ : Nat → Nat → K) (hsort : List (DN K) → List (DN K))
       let st := (hsort (cover cur)).foldl (descendParent δ K0 Q) ⟨ub, maxScale, cover, zero⟩
       internalBatch δ hsort K0 leafScale fuel Q (st.cover.clear cur) st.zero (cur + 1) st.maxScale st.ub
 
-/-- `k_nearest_neighbor(dcb, top, top, results, K0)` (`hsort` = `halfsort`): one result `query :: candidates` per leaf of the query tree -/
-def batchQuery (δ : Nat → Nat → K) (hsort : List (DN K) → List (DN K)) (K0 leafScale : Nat) (top : CNode K) :
+/-- `k_nearest_neighbor(dcb, top, top, results, K0)` with recursion depth at most `fuel` -/
+def batchQueryFuel (δ : Nat → Nat → K) (hsort : List (DN K) → List (DN K)) (K0 leafScale fuel : Nat) (top : CNode K) :
     Option (List (List Nat)) :=
   let d0 := δ top.p top.p
-  internalBatch δ hsort K0 leafScale (top.size * (leafScale + 3) + 2) top (Cover.empty.push 0 ⟨d0, top⟩) [] 0 0
-    (update K0 [] d0)
+  internalBatch δ hsort K0 leafScale fuel top (Cover.empty.push 0 ⟨d0, top⟩) [] 0 0 (update K0 [] d0)
+
+/-- `k_nearest_neighbor(dcb, top, top, results, K0)` (`hsort` = `halfsort`): one result `query :: candidates` per leaf of
+    the query tree.  The fuel is `top.queryFuel`; by `cover_query_fuel_suffices` it never runs out on a tree whose
+    childless nodes all carry `leafScale`, and no larger fuel gives another answer. -/
+def batchQuery (δ : Nat → Nat → K) (hsort : List (DN K) → List (DN K)) (K0 leafScale : Nat) (top : CNode K) :
+    Option (List (List Nat)) :=
+  batchQueryFuel δ hsort K0 leafScale top.queryFuel top
 
 end
 
-/-! ### well-formed trees (hypothesis of `cover_query_exact_partial`; evaluated on the real tree by the driver) -/
+/-! ### well-formed trees (hypothesis of `cover_query_exact`; evaluated on the real tree by the driver) -/
 
 section
 variable [LE K] [DecidableLE K] [DecidableEq K]
